@@ -100,6 +100,10 @@ type c05Env struct {
 	// unhashable: the proposal's execution payload (header) is null, which the client library's decoder
 	// lets through and its hashing code cannot handle: the block has no body root, so nothing may be signed
 	unhashable bool
+	// prior: the same proposer service has prepared another validator's proposal for the previous slot (same epoch)
+	prior      bool
+	acct2      *hAccount
+	gotReveal  phase0.BLSSignature
 	relays     []*c05Relay
 	acct     *hAccount
 
@@ -124,7 +128,7 @@ type c05SignCall struct {
 
 func (e *c05Env) SignRANDAOReveal(_ context.Context, a e2wtypes.Account, slot phase0.Slot) (phase0.BLSSignature, error) {
 	e.randao = append(e.randao, fmt.Sprintf("%s@%d", a.Name(), slot))
-	return phase0.BLSSignature{0xaa, 1}, nil
+	return c05Reveal(a.Name(), slot), nil
 }
 
 func (e *c05Env) SignBeaconBlockProposal(_ context.Context, a e2wtypes.Account, slot phase0.Slot, idx phase0.ValidatorIndex, parent, state, body phase0.Root) (phase0.BLSSignature, error) {
@@ -185,6 +189,7 @@ func (e *c05Env) AuctionBlock(_ context.Context, _ phase0.Slot, _ phase0.Hash32,
 func (e *c05Env) Proposal(_ context.Context, opts *api.ProposalOpts) (*api.Response[*api.VersionedProposal], error) {
 	e.proposals++
 	e.gotGraf = opts.Graffiti
+	e.gotReveal = opts.RandaoReveal
 	e.proposal = c05Proposal(e.version, e.blinded, c05Slot+e.slotOff)
 	if e.unhashable {
 		switch {
@@ -265,9 +270,19 @@ func c05FullBlock(v spec.DataVersion, tag byte) *api.VersionedSignedProposal {
 	return p
 }
 
+// c05Reveal is the RANDAO reveal the signer stand-in produces: it names the account and the slot.
+func c05Reveal(name string, slot phase0.Slot) phase0.BLSSignature {
+	s := phase0.BLSSignature{0xaa, byte(slot)}
+	copy(s[2:], name)
+	return s
+}
+
 // c05Build constructs the real block proposer over the environment.
 func c05Build(e *c05Env) *standardproposer.Service {
 	accts := &accountsTable{byIndex: map[phase0.ValidatorIndex]*hAccount{7: e.acct}}
+	if e.acct2 != nil {
+		accts.byIndex[8] = e.acct2
+	}
 	params := []standardproposer.Parameter{
 		standardproposer.WithLogLevel(zerolog.Disabled), standardproposer.WithMonitor(&nullmetrics.Service{}),
 		standardproposer.WithChainTime(newChainTime(-int64(c05Slot)*int64(12*time.Second), 12*time.Second, 32)),
@@ -334,10 +349,19 @@ func c05Units(tier string) []hx.Unit {
 						e.relays = append(e.relays, &c05Relay{idx: i, env: e, beh: "full"})
 					}
 				}
+				e.prior = mc.Choose(2) == 1
+				if e.prior {
+					e.acct2 = newAccount("W", "other", 8)
+				}
 				svc := c05Build(e)
 				duty := beaconblockproposer.NewDuty(c05Slot, 7)
 				ctx, cancel := mcontext.WithTimeout(context.Background(), 8*time.Second)
 				defer cancel()
+				if e.prior {
+					if err := svc.Prepare(ctx, beaconblockproposer.NewDuty(c05Slot-1, 8)); err != nil {
+						panic("harness: preparing the other validator's duty failed: " + err.Error())
+					}
+				}
 				e.prepErr = svc.Prepare(ctx, duty)
 				if e.prepErr == nil {
 					svc.Propose(ctx, duty)
@@ -361,7 +385,7 @@ func c05Check(e *c05Env, r *mc.Result) mc.Verdict {
 	if e.unhashable {
 		ver += "(null execution payload)"
 	}
-	desc := fmt.Sprintf("%s blinded=%v proposal-slot=duty+%d graffiti=%s auction=%s sign=%s submit=%s relays=[%s] all=%v", ver, e.blinded, e.slotOff, e.graffiti, e.auction, e.sign, e.submit, strings.Join(rel, " "), e.all)
+	desc := fmt.Sprintf("%s blinded=%v prior-duty=%v proposal-slot=duty+%d graffiti=%s auction=%s sign=%s submit=%s relays=[%s] all=%v", ver, e.blinded, e.prior, e.slotOff, e.graffiti, e.auction, e.sign, e.submit, strings.Join(rel, " "), e.all)
 	v.Outcome = fmt.Sprintf("blinded=%v signs=%d submitted=%d", e.blinded, len(e.signCalls), len(e.submitted))
 	v.Sample = desc + " -> " + v.Outcome
 	v.Nontrivial = e.blinded || e.unhashable || e.slotOff != 0 || e.graffiti != "ok" || e.auction == "error" || e.sign != "ok"
@@ -381,8 +405,15 @@ func c05Check(e *c05Env, r *mc.Result) mc.Verdict {
 		return fail("prepare-failed", "Prepare failed: "+e.prepErr.Error())
 	}
 	// RANDAO reveal: exactly for the duty's validator and slot
-	if len(e.randao) != 1 || e.randao[0] != fmt.Sprintf("proposer@%d", c05Slot) {
-		return fail("randao-request", fmt.Sprintf("RANDAO reveal requests %v, expected exactly one for the duty's account and slot", e.randao))
+	wantReveals := []string{fmt.Sprintf("proposer@%d", c05Slot)}
+	if e.prior {
+		wantReveals = []string{fmt.Sprintf("other@%d", c05Slot-1), fmt.Sprintf("proposer@%d", c05Slot)}
+	}
+	if fmt.Sprint(e.randao) != fmt.Sprint(wantReveals) {
+		return fail("randao-request", fmt.Sprintf("RANDAO reveal requests %v, expected exactly %v (one per duty, for that duty's account and slot)", e.randao, wantReveals))
+	}
+	if e.proposals > 0 && e.gotReveal != c05Reveal("proposer", c05Slot) {
+		return fail("randao-of-other-duty-used", "the proposal was requested with a RANDAO reveal that is not the one obtained for this duty's validator and slot")
 	}
 	if len(e.signCalls) > 1 {
 		return fail("signed-twice", "more than one block signature requested for one duty")
@@ -600,7 +631,7 @@ func init() {
 	hx.Register(&hx.Prop{
 		ID:    "C05",
 		Title: "A proposal signs only the selected block of the duty slot and submits it intact",
-		Rule: "real Prepare + Propose of the block proposer for every block version (phase0..deneb) x blinded (bellatrix+) x proposal slot {duty, duty+1} x graffiti {ok, error, no provider} x auction {no auctioneer, error, no winner, winner with 1 or 2 providers} x signing {ok, error} x submission {ok, error} x (bellatrix+) execution payload {present, null: the block cannot be hashed and nothing may be signed} x unblind-from-all x per-relay unblinding behaviour {full block at 0s/1s, three errors (status 500 or 503), status 400, empty response, never}; relay goroutines explored with deviation-bounded schedules (quick 1, thorough 2); " +
+		Rule: "real Prepare + Propose of the block proposer (optionally after the same service prepared another validator's proposal for the previous slot) for every block version (phase0..deneb) x blinded (bellatrix+) x proposal slot {duty, duty+1} x graffiti {ok, error, no provider} x auction {no auctioneer, error, no winner, winner with 1 or 2 providers} x signing {ok, error} x submission {ok, error} x (bellatrix+) execution payload {present, null: the block cannot be hashed and nothing may be signed} x unblind-from-all x per-relay unblinding behaviour {full block at 0s/1s, three errors (status 500 or 503), status 400, empty response, never}; relay goroutines explored with deviation-bounded schedules (quick 1, thorough 2); " +
 			"oracle on every signer, relay and submitter call; non-trivial = blinded, other-slot proposal, or a failing graffiti/auction/signing step; distinct = distinct (blinded, signatures, submissions)",
 		Assumptions: []string{
 			"apart from the null execution payload the proposal provider returns well-formed blocks (other malformed ones are C16)",
